@@ -1,8 +1,8 @@
 SPECIFICATION MCSpec
 CONSTANTS
- FIds = {1, 2, 3, 4, 5}
- LIds = {1, 2, 3, 4, 5}
- NIds = {1, 2, 3, 4, 5}
+ FIds = {1, 2, 3}
+ LIds = {1, 2, 3}
+ NIds = {1, 2, 3}
  CfgSet <- CfgQuick
  Univ <- MCUniv
  Faulty = "none"
